@@ -39,13 +39,13 @@ PLAN = {
         'inv': ['ConnAgree', 'C05_EventDispatch', 'C05_BinaryEventDispatch'],
         'quick': ['events_quick', 'events_quick_bg'],
         'thorough': ['events_inl_fn', 'events_inl_class', 'events_bg_fn',
-                     'events_bg_class'],
+                     'events_bg_class', 'events_mp_quick'],
     },
     'C06': {
         'inv': ['ConnAgree', 'C06_IssuedIdUnique', 'C06_AckOutcome',
                 'C06_IssuedMatchesCore'],
         'quick': ['acks_quick'],
-        'thorough': ['acks_quick', 'acks'],
+        'thorough': ['acks_quick', 'acks', 'acks_mp_quick'],
     },
     'C11': {
         'inv': ['C11_NoResidue', 'C11_FreshWhenEmpty'],
@@ -54,8 +54,8 @@ PLAN = {
     },
     'C12': {
         'inv': ['C12_Isolation'],
-        'quick': ['hostile_quick'],
-        'thorough': ['hostile_quick', 'hostile'],
+        'quick': ['hostile_quick', 'hostile_mp_quick'],
+        'thorough': ['hostile_quick', 'hostile_mp_quick', 'hostile'],
     },
     'C16': {
         'inv': ['ConnAgree', 'C16_SessionIsolation'],
@@ -109,7 +109,8 @@ PLAN.update({
         'quick': ['acks_quick', 'lifecycle_quick_ac'],
         'thorough': ['rooms_quick', 'acks_quick', 'lifecycle_quick_ac',
                      'events_quick', 'events_quick_bg', 'sessions_quick',
-                     'hostile_quick', 'residue_quick', 'lifecycle_nc_fn_l'],
+                     'hostile_quick', 'residue_quick', 'lifecycle_nc_fn_l',
+                     'hostile_mp_quick', 'events_mp_quick', 'acks_mp_quick'],
     },
     'C14c': {
         'fam': 'client',
